@@ -842,6 +842,41 @@ def catalogue():
             lambda cs: {"u": uu(cs, "tr")}, weight=1)
     add("dutils.cast(0-d)", [Z, ("y", "vec", None)],
         lambda a, o: dutils.cast(a.x, a.y), weight=1)
+    def fresh_twice(a, o):
+        # a transform straight after its parameters were set: the first call
+        # of a method and the same call again
+        tr = set_tr(type(a.tr)(), o["u"])
+        r1 = rdigest(getattr(tr, o["m"])(a.x))
+        r2 = rdigest(getattr(tr, o["m"])(a.x))
+        if r1 != r2:
+            raise Violation("consecutive_calls_differ",
+                            f"{type(tr).__name__}.{o['m']} right after the "
+                            "parameters were set, then again: different "
+                            "results", "transform first call twice")
+        return r1
+    add("transform first call twice", [TR, ("x", "vec", {"vecN"})],
+        fresh_twice,
+        lambda cs: {"u": uu(cs, "tr"),
+                    "m": cs.choice("m", ["backward", "forward", "jacobian"])},
+        weight=2)
+
+    def params_from_vector(a, o):
+        # parameter values handed over as the caller's own vector, then the
+        # usual by-name assignment and reset on the transform
+        tr = type(a.tr)()
+        n = tr.params.nval
+        if n == 0 or len(a.p) < n:
+            return None
+        tr.params.values = a.p[:n]
+        tr[tr.params.names[0]] = o["v"]
+        out = [float(x) for x in tr.params.values]
+        tr.reset()
+        tr[tr.params.names[-1]] = o["v"]
+        tr.reset()
+        return out + [float(x) for x in tr.params.values]
+    add("transform.params.values = <caller's vector>, then by-name / reset",
+        [TR, ("p", "small", None)], params_from_vector,
+        lambda cs: {"v": cs.choice("v", [0.123, 0.9, 2.0])}, weight=2)
     add("transform.params_sample", [TR],
         lambda a, o: set_tr(a.tr, o["u"]).params_sample(o["n"]),
         lambda cs: {"u": uu(cs, "tr"), "n": cs.between("n", 1, 20)})
